@@ -1,6 +1,6 @@
 (* C09 — property theorems only: each restates the full statement and is closed by the lemma proved in Proofs/. *)
 From Coq Require Import ZArith List Bool.
-From NPS Require Import ListAux PySlice NumpySem Scatter BuildIdx XorBroadcast View Index Assign Reduce Scan RaOps Heap Hash HashRun BitArr RLE RLEOps RLE2d DataClass RowsSpec AssignSpec MapSpec Denote ColProof ColSum Struct2 Struct2Proof.
+From NPS Require Import ListAux PySlice NumpySem Scatter BuildIdx XorBroadcast View Index Assign Reduce Scan RaOps Heap Hash HashRun BitArr RLE RLEOps RLE2d DataClass RowsSpec AssignSpec MapSpec Denote ColProof ColSum ColMean RaMean Struct2 Struct2Proof.
 Import ListNotations.
 Open Scope Z_scope.
 
@@ -16,6 +16,16 @@ Theorem C09_colsum_correct :
   forall R : list (list Z), ra_colsum (concat R, map zlen R) = spec_colsum R.
 Proof. exact colsum_correct. Qed.
 Print Assumptions C09_colsum_correct.
+
+Theorem C09_ra_col_mean_correct :
+  forall (C : Type) (dv : Z -> Z -> C) (R : list (list Z)),
+       ra_col_mean dv (concat R, map zlen R) =
+       map
+         (fun j : Z =>
+          dv (zsum (flat_map (fun r : list Z => if j <? zlen r then [zznth r j] else []) R))
+            (cnt (fun l : Z => j <? l) (map zlen R))) (ap 0 (fold_left Z.max (map zlen R) 0) 1).
+Proof. exact (@ra_col_mean_correct). Qed.
+Print Assumptions C09_ra_col_mean_correct.
 
 Theorem C09_get_column_values_correct :
   forall (A : Type) (d : A) (R : list (list A)) (j : Z),
